@@ -36,6 +36,11 @@ TECHNIQUE = "static analysis: path tables and symbolic terms over rustc-resolved
 
 
 def run(ctx):
+    _run_main(ctx)
+    _shared_r4(ctx)
+
+
+def _run_main(ctx):
     r031(ctx, 'R03.1')
     r032(ctx)
     r034(ctx)
@@ -334,3 +339,10 @@ def r036(ctx):
         for decl, fs in BLOCKING.items():
             for f in fs:
                 r.check('blocking-present:%s:%s' % (decl.split('::')[-1], f), (decl, f) in found, ctx.site(f), why='tabled blocking call no longer present (table out of date: fail closed)')
+
+
+def _shared_r4(ctx):
+    from rules import arms as A
+    """Rules of other properties that are necessary conditions of this one too (found by seeding round 4)."""
+    with ctx.rule('R03.8', 'every returned message reaches the listener: the listener survives a successful hand-over and is cleared only on failure (shared with C13)', floor=2) as r:
+        A.include(ctx, r, 'c13', 'R13.2', pick=('try_send_return',))
